@@ -45,7 +45,6 @@ func newInfluxDBOutNode(et *ExecutingTask, n *pipeline.InfluxDBOutNode, d NodeDi
 		batchBuffer: new(edge.BatchBuffer),
 	}
 	in.node.runF = in.runOut
-	in.node.stopF = in.stopOut
 	in.wb.i = in
 	return in, nil
 }
@@ -93,7 +92,10 @@ func (n *InfluxDBOutNode) runOut([]byte) error {
 			edge.NewTimedForwardReceiver(n.timer, n),
 		),
 	)
-	return consumer.Consume()
+	err := consumer.Consume()
+	// All incoming data has been consumed, write out what is still buffered.
+	n.stopOut()
+	return err
 }
 
 func (n *InfluxDBOutNode) BeginBatch(begin edge.BeginBatchMessage) (edge.Message, error) {
